@@ -571,11 +571,18 @@ def rand_hs_key(rng, i):
              b'A' * 4096, b'0123456789' * 100, b'=', b'====', b'dGhlIHNhbXBsZSBub25jZQ', b':', b'k: v', b'258EAFA5-E914-47DA-95CA-C5AB0DC85B11']
     if i < len(fixed):
         return fixed[i]
-    n = rng.choice([1, 2, 16, 22, 24, 24, 24, 55, 56, 64, 119, 120, 300, 2000])
+    # every key length 1..192 once (so that key + the 36-byte GUID meets every SHA-1 padding boundary: 55/56/63/64 mod 64 are
+    # key lengths 19/20/27/28, 83/84/91/92, ...), then lengths drawn at random
+    if i - len(fixed) < 192:
+        n = i - len(fixed) + 1
+    else:
+        n = rng.choice([1, 2, 16, 19, 20, 22, 24, 24, 24, 27, 28, 55, 56, 64, 83, 84, 91, 92, 119, 120, 147, 300, 2000, rng.randint(1, 400)])
     if rng.random() < 0.5:
         return base64.b64encode(rb(rng, n))[:max(1, n)]
-    k = bytes(rng.randrange(0x21, 0x7f) if rng.random() < 0.9 else 0x20 for _ in range(n))
-    return k.strip(b' ') or b'k'
+    k = bytearray(rng.randrange(0x21, 0x7f) if rng.random() < 0.9 else 0x20 for _ in range(n))
+    k[0] = rng.randrange(0x21, 0x7f)          # the value is trimmed by the header parser: no blank at either end
+    k[-1] = rng.randrange(0x21, 0x7f)
+    return bytes(k)
 
 
 # ---------------------------------------------------------------------------------------------------
